@@ -9,7 +9,8 @@ THEOREMS = [("FlatModel.Props.C13", t) for t in ("FC.C13.readSlice_get", "FC.C13
 PROFILES = {"quick": ["checked"], "thorough": ["checked", "wrapping"], "search": ["checked"]}
 RULE = ("regions holding several adjacent slice / row items; every item, every position i in 0..len+3 and a few huge i, both "
         "representations (region-backed, borrowed from the owned Vec), on slice/columns entries and FlatStacks over them; oracle: "
-        "the i-th element for i < len, a panic otherwise; len / is_empty / iter / ExactSizeIterator::len agree; non-trivial when "
+        "the i-th element for i < len, a panic otherwise; len / is_empty / iter / ExactSizeIterator::len agree, and so do the other "
+        "ways of consuming the iterator (nth, skip, count, last, size hints at 0, 1, len/2, len-1, len, len+1); non-trivial when "
         "the probed item has a successor in the same storage")
 
 
